@@ -2,29 +2,46 @@
 use crate::Ctx;
 
 pub mod common;
+pub mod kwgen;
+pub mod c02;
+pub mod c07;
+pub mod c06;
+pub mod c18;
 pub mod c16;
 pub mod c19;
 pub mod run;
+pub mod c15;
+pub mod c17;
 pub mod c01;
 pub mod c03;
+pub mod c09;
 pub mod c10;
 pub mod parse;
 pub mod c04;
+pub mod c20;
 pub mod c12;
 pub mod c14;
 
 pub fn dispatch(ctx: &mut Ctx) {
     match ctx.prop.as_str() {
         "RUN" => run::generic(ctx),
+        "C02" => c02::check(ctx),
+        "C07" => c07::check(ctx),
         "C01" => c01::check(ctx),
         "C03" => c03::check(ctx),
+        "C09" => c09::check(ctx),
         "C10" => c10::check(ctx),
         "PARSE" => parse::check(ctx),
         "C04" => c04::check(ctx),
+        "C20" => c20::check(ctx),
         "C12" => c12::check(ctx),
         "C14" => c14::check(ctx),
         "C16" => c16::check(ctx),
         "C19" => c19::check(ctx),
+        "C15" => c15::check(ctx),
+        "C17" => c17::check(ctx),
+        "C06" => c06::check(ctx),
+        "C18" => c18::check(ctx),
         other => {
             ctx.case("harness", "", "viol", serde_json::json!({"what": format!("unknown property {}", other)}));
         }
